@@ -32,8 +32,8 @@ ASSUMPTIONS = [
 ]
 EXHAUSTIVE = {"quick": False, "thorough": False}
 PLAN = {"quick": dict(unions=2600, inputs=36), "thorough": dict(unions=60000, inputs=70)}
-FLOORS = {"quick": {"unmarshal_compared": 70000, "marshal_compared": 40000, "none_honoured": 2000, "all_reject_valueerror": 8000, "orders": 2000},
-          "thorough": {"unmarshal_compared": 3000000, "marshal_compared": 1500000, "none_honoured": 60000, "all_reject_valueerror": 300000, "orders": 30000}}
+FLOORS = {"quick": {"single_member_optionals": 30, "unmarshal_compared": 70000, "marshal_compared": 40000, "none_honoured": 2000, "all_reject_valueerror": 8000, "orders": 2000},
+          "thorough": {"single_member_optionals": 30, "unmarshal_compared": 3000000, "marshal_compared": 1500000, "none_honoured": 60000, "all_reject_valueerror": 300000, "orders": 30000}}
 
 MOD = "vunion_pool"
 SRC = """
@@ -146,6 +146,10 @@ def run_shard(sh):
 
     # deterministic global enumeration, sharded round-robin
     def all_orders():
+        # a single member next to None (Optional[X] in its three spellings and both None positions), each member several times
+        for rep in range(3):
+            for name in names:
+                yield (name,)
         for n in (2, 3):
             for tup in itertools.permutations(names, n):
                 yield tup
@@ -166,6 +170,9 @@ def run_shard(sh):
         rng = case_rng(sh, i)
         tup = mine[i]
         none_pos = rng.choice([None, None] + list(range(len(tup) + 1)))
+        if len(tup) == 1:
+            none_pos = rng.choice([0, 1])
+            sh.count("single_member_optionals")
         members = list(tup)
         if none_pos is not None:
             members.insert(none_pos, None)
